@@ -58,6 +58,11 @@ CLAIMED.update({
             "Evaluation is stated one level deep over an arbitrary valuation of child nodes (the evaluators themselves are under contract in C04/C24); JSON round-trip depends on encoding/json and is not decided by contracts (DESIGN §7 C25).", "§7 C25"),
 })
 
+CLAIMED.update({
+    "C18": ("Entry-set obligations of the merge path: unionInto proved exact (afterwards the destination's three sets are precisely old ∪ source, nothing else touched; map-iteration loops by inductive invariant over the visited-key set); mergeDataBlocks folds each merged block's sets into the file-level sets exactly once after its last row was indexed; buffer lifetime: a row buffer handed to indexRow (whose retained strings may view it) is never refilled (io.ReadFull/readFullAt/decodeBlockRowDataInto) and never returned to the scan-buffer pool for the rest of the merge (ghost typestate `pinned`) in copyDataBlock, mergeDataBlocks, loadBlockRowData, ReadDataBlockRowData.",
+            "indexRow's own body (gjson/tokenizer) is an assumed contract: that every path/token/pair of the row is added is NOT decided; bloom library Add/Test is an assumption; the flush path (handleFlush) and partition IDs / minmax coverage are not yet under C18 contracts (DESIGN §7 C18, §14).", "§7 C18"),
+})
+
 NOT_APPLICABLE = {
     "C14": "snapshot consistency under concurrent flush/merge is an interleaving-only property; no pre/postcondition of a single call expresses it (DESIGN §8)",
     "C15": "crash consistency needs a crash semantics and durability model (crash Hoare logic) the VC generator does not have (DESIGN §8)",
